@@ -175,6 +175,9 @@ func (hi *handlerInfo) structFields(tb *TB, t *Term) map[string]string {
 		t = tb.derefOf(t, nil)
 		tb.curLoad = saved
 	}
+	if t.Op == "call" {
+		t = tb.Norm(t) // a service-layer mapping helper (req.Suite.toSuiteConfig()) is read through
+	}
 	out := map[string]string{}
 	if t.Op != "struct" && t.Op != "structover" {
 		out["?"] = hi.norm(t)
@@ -311,11 +314,12 @@ func rulePrechecks(c *Check, w *World, tb *TB, rule string, h *ssa.Function, nee
 		EachInstr(f, func(in ssa.Instruction) {
 			switch x := in.(type) {
 			case *ssa.If:
-				t := tb.Val(x.Cond, e)
+				t0 := tb.Val(x.Cond, e)
 				for _, field := range []string{"Secret", "Code"} {
-					if !mentions(t, field) {
+					if !mentions(t0, field) {
 						continue
 					}
+					t := tb.Norm(t0) // boolean helpers such as isBlank(s) are read through
 					key := FuncName(f) + ":" + field + ":" + clip(t.String(), 80)
 					if seen[key] {
 						continue
